@@ -12,6 +12,13 @@ PROPS = {
         "level_note": "crc32fast assumed to compute CRC-32 (uninterpreted crc32); the wiring of Crc32Reader around every decoder in read.rs (make_reader / is_ae2_encrypted) is decided only once unit U8 is built - until then listed under undecided_clauses in the evidence",
         "undecided": ["make_reader wraps every decoding variant in Crc32Reader with the entry's declared CRC and the AE-2 flag (unit U8, not built yet)"],
     },
+    "C18": {
+        "units": [],
+        "kani": ["types"],
+        "technique": "Kani complete (loop-free, full 2^32 domain) harnesses + function contracts on the real DateTime code",
+        "level_text": "Complete symbolic proof with Kani/CBMC over the real crate: pack/unpack are mutually inverse for all 2^32 (date,time) words; the checked constructor accepts exactly the documented ranges and accepted values survive pack/unpack up to 2 s; to_time never panics and is Err exactly for impossible dates; to_time/TryFrom are mutually inverse; TryFrom accepts exactly 1980..=2107. The real `time` crate code is executed symbolically, not assumed.",
+        "level_note": "CBMC bit-precise semantics of the compiled MIR; try_from harness restricts years to 1900..=2200 (kani::assume, stated in the harness); archive round trip of timestamps rides on the header writer/parser contracts of C01",
+    },
 }
 
 NOT_APPLICABLE = {
